@@ -203,7 +203,8 @@ def run_trans(case, ctx):
         if ps[name] != p0 or d1 != d0:
             prev = reps[keep[seq[k - 1]]] if k else None
             what = 'code file' if ps[name] != p0 else 'diagnostics'
-            out.violate('statement-depends-on-previous-file:%s' % what.replace(' ', '-'),
+            out.violate('statement-depends-on-previous-file:%s:%s:%s->%s' % (what.replace(' ', '-'), cpu.lower(), (prev or '?').split()[0].lower() if prev else '?',
+                                                                             reps[keep[a]].split()[0].lower()),
                         '%s: file %r assembled right behind file %r gives %s %s, alone %s' % (
                             tag, reps[keep[a]].strip(), (prev or '').strip(), what,
                             (ps[name] or b'')[-12:].hex() if what == 'code file' else d1, (p0 or b'')[-12:].hex() if what == 'code file' else d0))
